@@ -47,6 +47,12 @@ def _get_rc_interval(stoich, c0):
     else:
         lower = 0
 
+    # an exhausted species (c0 == 0) cannot be consumed any further:
+    if np.any((c0 == 0) & (stoich < 0)):
+        upper = 0
+    if np.any((c0 == 0) & (stoich > 0)):
+        lower = 0
+
     if lower == 0 and upper == 0:
         raise ValueError("0-interval")
     else:
